@@ -358,6 +358,9 @@ def execCmd (w : World) (p : Pid) (c : Cmd) : World × Outcome :=
     if h = 0 then (w, .skip) else
     let (w, r) := evCancel w h
     (w, .ret (if r then 1 else 0) "")
+  | .cancelUserAll =>
+    let (w, n) := cancelUserAll w
+    (w, .ret n "")
   | .waitEvent v =>
     let h := getVar w p v
     if h = 0 ∨ ¬ isScheduled w.ev h then (w, .skip) else
